@@ -107,6 +107,12 @@ func NewCtx(id, level, tier string) *Ctx {
 		}
 	}
 	c.Deadline = c.Start.Add(budget)
+	// worker processes inherit the deadline of the run that spawned them
+	if v := os.Getenv("VERIF_DEADLINE_UNIX"); v != "" {
+		if n, err := strconv.ParseInt(v, 10, 64); err == nil {
+			c.Deadline = time.Unix(n, 0)
+		}
+	}
 	return c
 }
 
